@@ -118,7 +118,7 @@ Theorem C15_K15H_refuted :
 Proof.
   split.
   - eexists. eexists. eexists. split; [vm_compute; reflexivity|]. split; vm_compute; reflexivity.
-  - eexists. split; vm_compute; reflexivity.
+  - eexists. split; [vm_compute; reflexivity|vm_compute; reflexivity].
 Qed.
 
 (* ---------- high-level writer ---------- *)
